@@ -61,7 +61,7 @@ func (p *printer) node(n interface{}) {
 	case ast.Statement:
 		p.statement(n)
 	case ast.Expr:
-		p.expr(n, nil)
+		p.expr(n, ast.LowestPrec)
 	default:
 		p.SetError(errutil.UnexpectedType(n))
 	}
@@ -73,15 +73,18 @@ func (p *printer) statement(stmt ast.Statement) {
 	} else {
 		p.Printf("return\t\t")
 	}
-	p.expr(stmt.Expr, nil)
+	p.expr(stmt.Expr, ast.LowestPrec)
 	p.NL()
 }
 
-func (p *printer) expr(e, parent ast.Expr) {
-	// Parens required if the precence of this operator is less than its parent.
-	if parent != nil && e.Precedence() < parent.Precedence() {
+// expr prints e in a position where the grammar admits expressions of
+// precedence prec or higher.
+func (p *printer) expr(e ast.Expr, prec int) {
+	// Parens required if the precedence of this operator is less than its
+	// position in the grammar allows.
+	if e.Precedence() < prec {
 		p.Printf("(")
-		p.expr(e, nil)
+		p.expr(e, ast.LowestPrec)
 		p.Printf(")")
 		return
 	}
@@ -103,18 +106,20 @@ func (p *printer) expr(e, parent ast.Expr) {
 }
 
 func (p *printer) add(a ast.Add) {
-	p.expr(a.X, a)
+	// Addition is left associative: a sum on the right needs parens.
+	p.expr(a.X, a.Precedence())
 	p.Printf(" + ")
-	p.expr(a.Y, a)
+	p.expr(a.Y, a.Precedence()+1)
 }
 
 func (p *printer) double(d ast.Double) {
+	// The operand of a double or shift must be an operand or in parens.
 	p.Printf("2*")
-	p.expr(d.X, d)
+	p.expr(d.X, ast.HighestPrec)
 }
 
 func (p *printer) shift(s ast.Shift) {
-	p.expr(s.X, s)
+	p.expr(s.X, ast.HighestPrec)
 	p.Printf(" << %d", s.S)
 }
 
